@@ -23,7 +23,8 @@ REQUIRED_PROBES = ["merge_breakpoints", "merger_iter"]
 REQUIRED_FEATURES = ["merge:single-pass", "merge:two-pass", "chunks:empty", "chunks:repeat-pixel", "mergebuf:1",
                      "ensure_sorted", "mode:square", "mode:symm", "maxmerge:below-chunk-count:2-3-chunks",
                      "epoch:empty-row-with-tiny-buffer", "chunks:all-empty", "counts:float-fractional",
-                     "chunks:repeat-pixel-within-chunk(dupcheck=False)"]
+                     "chunks:repeat-pixel-within-chunk(dupcheck=False)", "pixels:all-records-zero", "input-id-dtype:uint32",
+                     "input-id-dtype:uint64", "input-id-dtype:int32"]
 
 
 def plan(tier, seed):
@@ -71,6 +72,7 @@ def one_multiset(ctx, shard, k, rng):
         # leading empty row(s): the merge partition starts on rows without records
         base = {(i, j): v for (i, j), v in base.items() if i >= 2} or {(n - 1, n - 1): 3}
     keys = sorted(base)
+    zero_pixels = bool(rng.random() < 0.3)
     # records: every pixel split into 1..3 parts that will land in different chunks
     records = []
     for key in keys:
@@ -79,6 +81,8 @@ def one_multiset(ctx, shard, k, rng):
         vals = [v] + [int(rng.integers(1, 9)) for _ in range(parts - 1)]
         if float_counts:
             vals = [x + float(int(rng.integers(1, 8))) / 8.0 for x in vals]
+        if zero_pixels and rng.random() < 0.2:
+            vals = [type(vals[0])(0)] * parts              # every record of this pixel is an explicit zero
         for p_, val in enumerate(vals):
             sc = float(int(rng.integers(-40, 40))) / 8.0
             records.append((key, val, sc, p_))
@@ -135,11 +139,12 @@ def one_multiset(ctx, shard, k, rng):
         max_merge = int(mm_choices[int(r2.integers(6))])
         if special == 2:
             max_merge = int([1, 2][int(r2.integers(2))])
+        idt = [np.int64, np.int64, np.int32, np.uint16, np.uint32, np.uint64, np.int16][int(r2.integers(7))]
         frames = []
         for ch in chunks:
             rows = [(kk[0], kk[1], v, sc) for kk, v, sc in ch]
             df = pd.DataFrame(rows, columns=["bin1_id", "bin2_id", "count", "score"]).astype(
-                {"bin1_id": np.int64, "bin2_id": np.int64, "count": np.float64 if float_counts else np.int64,
+                {"bin1_id": idt, "bin2_id": idt, "count": np.float64 if float_counts else np.int64,
                  "score": np.float64})
             if ensure_sorted:
                 df = df.iloc[r2.permutation(len(df))].reset_index(drop=True)
@@ -150,7 +155,7 @@ def one_multiset(ctx, shard, k, rng):
             frames.append(df)
         desc = {"bt": bt, "symm": symm, "chunks": [f.values.tolist() for f in frames][:14], "mergebuf": mergebuf,
                 "max_merge": max_merge, "ensure_sorted": ensure_sorted, "two_cols": two_cols,
-                "float_counts": float_counts, "dup_in_chunk": dup_in_chunk}
+                "float_counts": float_counts, "dup_in_chunk": dup_in_chunk, "id_dtype": np.dtype(idt).name}
         d = ctx.newdir()
         out = os.path.join(d, "out.cool")
         with ctx.case(cid, desc, exc_key=exc_key(frames, max_merge, mergebuf, total)) as c:
@@ -164,6 +169,9 @@ def one_multiset(ctx, shard, k, rng):
                 c.feature("chunks:repeat-pixel")
             if mergebuf == 1:
                 c.feature("mergebuf:1")
+            c.feature(f"input-id-dtype:{np.dtype(idt).name}")
+            if any(v == 0 for v in total.values()):
+                c.feature("pixels:all-records-zero")
             if ensure_sorted:
                 c.feature("ensure_sorted")
             if nck in (2, 3) and max_merge < nck:
